@@ -1008,7 +1008,7 @@ theorem C07_holds : C07_statement := by
 `F64.ofRatRNE` (Spec/TowerSpec.lean) is round-to-nearest, ties-to-even.  It is not a parameter of
 the theorems above (they hold for every conversion `O.ofInt`, `O.ofRat`); the differential check
 compares `float(x)` and every mixed exact/float operation of the real interpreter with it.  Sanity
-by kernel evaluation; the general optimality statement is kept unproved below. -/
+by kernel evaluation here; the general optimality statement below is proved in Theorems/C07Float.lean. -/
 
 theorem rne_third : F64.ofRatRNE (mkRat 1 3) = 0x3FD5555555555555 := by decide +kernel
 theorem rne_tenth : F64.ofRatRNE (mkRat 1 10) = 0x3FB999999999999A := by decide +kernel
@@ -1029,8 +1029,10 @@ theorem rne_roundtrip_examples :
     F64.viewBits (F64.ofRatRNE 9007199254740992) = .fin 9007199254740992 ∧
     F64.viewBits (F64.ofRatRNE (mkRat 1 (2 ^ 1074))) = .fin (mkRat 1 (2 ^ 1074)) := by decide +kernel
 
-/-- UNPROVED (kept as a statement): `ofRatRNE q` is a nearest binary64 value to `q` among all
-finite bit patterns, whenever it is finite itself -/
+/-- `ofRatRNE q` is a nearest binary64 value to `q` among all finite bit patterns, whenever it is
+finite itself.  PROVED as `Noulith.C07F.ofRatRNE_nearest` in Theorems/C07Float.lean (with ties to even,
+the overflow threshold, the sign and exactness on representable values); the statement stays here
+under its original name. -/
 def ofRatRNE_nearest_statement : Prop :=
   ∀ (q q' : Rat), F64.viewBits (F64.ofRatRNE q) = .fin q' →
     ∀ (b : Nat) (qb : Rat), b < 2 ^ 64 → F64.viewBits b = .fin qb → (q - q').abs ≤ (q - qb).abs
